@@ -177,15 +177,33 @@ def fields_read(expr, f, bind=None, depth=0):
                             and isinstance(c.func.value, ast.Name) and c.func.value.id == x.id for c in ast.walk(d)):
                         # a collection filled in a loop: how much it holds is decided by what bounds the loop
                         todo.append(d.iter if isinstance(d, ast.For) else d.test)
-            elif isinstance(x, ast.Call) and isinstance(x.func, ast.Attribute) and isinstance(x.func.value, ast.Name) and \
-                    x.func.value.id in ('cls', 'self') and f.cls is not None and ('call', x.func.attr) not in seen:
-                # the value comes from a helper method of the class: what the helper returns
-                seen.add(('call', x.func.attr))
-                h = f.cls.resolve(x.func.attr)
+            elif isinstance(x, ast.Call) and (
+                    (isinstance(x.func, ast.Attribute) and isinstance(x.func.value, ast.Name) and x.func.value.id in ('cls', 'self')
+                     and f.cls is not None and ('call', x.func.attr) not in seen) or
+                    (isinstance(x.func, ast.Name) and f.module.bindings.get(x.func.id, (None,))[0] == 'func' and ('call', x.func.id) not in seen)):
+                # the value comes from a helper method of the class or a helper function of the module: what the helper returns
+                if isinstance(x.func, ast.Name):
+                    seen.add(('call', x.func.id))
+                    seen.add(x.func.id)
+                    h = f.module.bindings[x.func.id][1]
+                else:
+                    seen.add(('call', x.func.attr))
+                    h = f.cls.resolve(x.func.attr)
                 if h is not None and not h.module.external:
                     from .astutil import returned
+                    # ``cls._pop_numeric(parser, 'field', 1)``: the helper reads ``parser[name]`` with the name the call spells out
+                    hparams = [a.arg for a in h.node.args.args]
+                    if hparams and hparams[0] in ('self', 'cls') and isinstance(x.func, ast.Attribute) and not any(
+                            isinstance(d, ast.Name) and d.id == 'staticmethod' for d in h.node.decorator_list):
+                        hparams = hparams[1:]
+                    hbind = {}
+                    for name, a in list(zip(hparams, x.args)) + [(k.arg, k.value) for k in x.keywords if k.arg]:
+                        if isinstance(a, ast.Constant) and isinstance(a.value, str):
+                            hbind[name] = a.value
+                        elif isinstance(a, ast.Name) and bind and a.id in bind:
+                            hbind[name] = bind[a.id]
                     for r in returned(h.node):
-                        keys |= fields_read(r, h)
+                        keys |= fields_read(r, h, hbind or None)
     return keys
 
 def owner_construct(f):
